@@ -24,7 +24,8 @@ def _case(draw):
             'hp': {'factor_update_steps': 1, 'inv_update_steps': draw(st.sampled_from([1, 1, 2])), 'damping': 0.05, 'factor_decay': 0.9,
                    'kl_clip': 1e30, 'lr': 0.1},
             'T': T, 'c': draw(st.integers(1, T)), 'dir_mode': draw(st.booleans()), 'compute_inverses': draw(st.booleans()),
-            'data_seed': draw(st.integers(0, 999)), 'schedule': draw(st.lists(st.integers(0, 63), max_size=200)), 'flip': draw(st.booleans()), 'rollback_live': draw(st.booleans())}
+            'data_seed': draw(st.integers(0, 999)), 'schedule': draw(st.lists(st.integers(0, 63), max_size=200)), 'flip': draw(st.booleans()), 'rollback_live': draw(st.booleans()),
+            'heuristic': draw(st.sampled_from(['compute', 'compute', 'memory']))}
 
 
 class C18(Prop):
